@@ -39,7 +39,19 @@ type Case struct {
 	FValue  uint32 `json:"fvalue,omitempty"`
 }
 
-var hostile = []uint32{1 << 16, 1 << 24, 1 << 26, 1<<31 - 1, 1 << 31, 1<<32 - 1}
+// hostile counts: large round numbers, and the counts at which a product with a
+// stride (2, 3, 4), with the size of an ordinate (8) or of a coordinate (16, 24, 32)
+// first passes 2^31 or 2^32 (where arithmetic in 32 bits wraps to something small)
+var hostile = func() []uint32 {
+	out := []uint32{1 << 16, 1 << 24, 1 << 26, 1<<31 - 1, 1 << 31, 1<<32 - 1}
+	for _, m := range []uint64{2, 3, 4, 8, 16, 24, 32} {
+		for _, top := range []uint64{1 << 31, 1 << 32} {
+			q := (top + m - 1) / m
+			out = append(out, uint32(q), uint32(q+1), uint32(q+5))
+		}
+	}
+	return out
+}()
 
 func refMode(mode string) refwkb.Mode {
 	if mode == "ewkb" {
